@@ -148,7 +148,7 @@ def in_child(fn):
 
 # ---------------------------------------------------------------- the explorer
 class Spec:
-    def __init__(self, texts, inputs, slots=2, depth=4, reissue=True, ref_expected=None, ops=("new", "rec", "call")):
+    def __init__(self, texts, inputs, slots=2, depth=4, reissue=True, ref_expected=None, ops=("new", "rec", "call", "copy")):
         self.texts = texts  # key -> text
         self.inputs = inputs  # list of env dicts
         self.slots = slots
@@ -160,6 +160,7 @@ class Spec:
         self.table = {}
         self.gfp0 = None
         self.isolate = False  # True: every replay and every fresh-evaluator table runs in a forked child
+        self.copy_ok = {"c": False, "d": False}  # does copy.copy / copy.deepcopy of an evaluator work at all (measured in prepare)
 
     def prepare(self):
         """what a fresh evaluator of each text does (the differential oracle).  Always computed in a
@@ -167,6 +168,8 @@ class Spec:
         pristine image to fork replays from."""
         self.gfp0 = global_fingerprint()
         self.prep_violations = []
+        if "copy" in self.ops:
+            self.copy_ok = in_child(self._copy_support)
         for k, t in self.texts.items():
             ok, tab, note = in_child(lambda t=t: self._fresh_one(t))
             self.fresh[k] = ok
@@ -174,6 +177,23 @@ class Spec:
                 self.table[k] = tab
             if note:
                 self.prep_violations.append({"kind": "life:two-fresh-evaluators", "history": [["new", 0, k], ["new", 1, k]], "text": t, "why": note})
+
+    def _copy_support(self):
+        """a clone made with copy.copy / copy.deepcopy is 'another evaluator' of the same text - if cloning is supported at all"""
+        import copy
+
+        out = {"c": False, "d": False}
+        for t in self.texts.values():
+            b = impl.build(t)
+            if b[0] == "ok":
+                for k, fn in (("c", copy.copy), ("d", copy.deepcopy)):
+                    try:
+                        fn(b[1])
+                        out[k] = True
+                    except Exception:  # noqa
+                        out[k] = False
+                break
+        return out
 
     def _fresh_one(self, t):
         b = impl.build(t)
@@ -205,11 +225,23 @@ class Spec:
             if model[s] is not None and "call" in self.ops:
                 for xi in range(len(self.inputs)):
                     ops.append(("call", s, xi))
+            if "copy" in self.ops:
+                for src in range(self.slots):
+                    if src != s and model[src] is not None:
+                        ops += [("copy", s, f"{k}{src}") for k in ("c", "d") if self.copy_ok[k]]
         return ops
 
     # -- one real transition; returns observed outcome class
     def apply(self, objs, op):
         kind, s, a = op
+        if kind == "copy":
+            import copy
+
+            try:
+                objs[s] = (copy.copy if a[0] == "c" else copy.deepcopy)(objs[int(a[1:])])
+                return ("ok",)
+            except Exception as e:  # noqa
+                return ("raise", type(e).__name__)
         if kind == "new":
             b = impl.build(self.texts[a])
             if b[0] == "ok":
@@ -231,6 +263,10 @@ class Spec:
     def step_model(self, model, op):
         """-> (new model, expected outcome class)"""
         kind, s, a = op
+        if kind == "copy":
+            m = list(model)
+            m[s] = model[int(a[1:])]
+            return tuple(m), "ok"
         if kind in ("new", "rec"):
             if self.fresh[a]:
                 m = list(model)
